@@ -31,6 +31,9 @@ mod panic;
 mod key;
 pub use key::Key;
 
+#[cfg(compio_verif)]
+pub mod verif;
+
 mod asyncify;
 pub use asyncify::*;
 
